@@ -11,7 +11,7 @@
 From Coq Require Import List ZArith NArith Bool.
 From BBS Require Import Common.Sx Buffer.Source Buffer.Validate Buffer.Convert Buffer.ErrHandler
   Buffer.StreamProofs Buffer.ValidateProofs Buffer.ErrHandlerProofs Buffer.ClosedOnceProofs
-  Buffer.ErrHandlerStackProofs Buffer.StackRuleProofs Run.R09 Run.R16.
+  Buffer.ErrHandlerStackProofs Buffer.StackRuleProofs Run.R09 Run.R16 Run.R16Proofs.
 Import ListNotations.
 Open Scope N_scope.
 
@@ -169,6 +169,16 @@ Theorem each_error_offered_once_per_level : forall act e r passed act',
   (fst r = None /\ act' = [] /\ map h_log passed = grow act (offer_chain e act)).
 Proof. exact escalate_logs. Qed.
 Print Assumptions each_error_offered_once_per_level.
+
+(** The monitor's new clauses 8 (Done = 1 at every level) and 9 (every
+    underlying reader closed once) hold of the model's own observation for every
+    input: on the unchanged tree they can only fire where the implementation's
+    observation differs from the model's. *)
+Theorem new_monitor_clauses_silent_on_model : forall inp,
+  clause8 (q_anss (dec_case16 inp)) (obs_dones (run16 inp)) = true /\
+  clause9 (obs_closes (run16 inp)) = true.
+Proof. exact clauses_8_9_silent_on_model. Qed.
+Print Assumptions new_monitor_clauses_silent_on_model.
 
 (** Non-vacuity: the original fails after one byte, the replacement is opened
     at offset 1; the consumer gets 1,2,3 once each, validation succeeds, the
